@@ -661,10 +661,59 @@ def valueAt (v : Nat) (call : Nat) : Hist → Nat
 
 def after (call : Nat) (h : Hist) : Hist := h.filter (fun p => decide (call < p.1))
 
+/-! ## `"startup"` / `"shutdown"` entries of the `time_trigger` list (finding C15-F8)
+
+A `time_trigger` list may hold the words `"startup"` and `"shutdown"` next to (or instead of) time specifications.
+For `task.wait_until` they denote no instant.  Legacy: `timer_trigger_next` skips them ("Can't parse"), the list
+counts as a time trigger whose remaining specifications decide.  New subsystem: `TimeTriggerDecorator.validate`
+strips them from `timespec` and sets `run_on_startup` / `run_on_shutdown` (an EMPTY list also sets `run_on_startup`);
+repaired shape: both flags are cleared again when the manager is a `WaitUntilDecoratorManager`, so only the
+remaining specifications count; pre-fix shape (`acted = true`): `_cycle` dispatches `trigger_time: "startup"` as
+soon as the decorator's task runs, and `stop()` dispatches `trigger_time: "shutdown"` – re-entering
+`WaitUntilDecoratorManager.dispatch` before the real result is stored, so the caller gets the bogus time result. -/
+structure Entries where
+  /-- `"startup"` among the entries, or the list is empty -/
+  startup : Bool
+  shutdown : Bool
+deriving DecidableEq, Repr
+
+def Entries.none : Entries := { startup := false, shutdown := false }
+
+/-- is the `wait_until` shape of `TimeTriggerDecorator` the pre-fix one (entries acted upon)? -/
+def entriesActedCurrent : Bool := false
+def entriesActedPreFix : Bool := true
+
+/-- the exit the caller sees.  Pre-fix: a start-up entry ends the wait at the call with a `time` result unless the
+call already ended at that instant before the time decorator's task ran (check-now hit, exception of the start-up
+check: the state decorator's task is created first); otherwise a shut-down entry replaces whatever result ends the
+wait by a `time` result at the same instant.  (Only the exit of the pre-fix shape is modelled, not its tables.) -/
+def New.exitWithEntries (acted : Bool) (en : Entries) (call : Nat) (e : Exit) : Exit :=
+  if !acted then e
+  else
+    match e with
+    | .ret t r =>
+      if t = call && r == Ret.state Option.none then e
+      else if en.startup then .ret call (.time call)
+      else if en.shutdown then .ret t (.time t)
+      else e
+    | .exc t _ => if en.startup && decide (call < t) then .ret call (.time call) else e
+    | .cancelled _ => if en.startup then .ret call (.time call) else e
+    | .waiting => if en.startup then .ret call (.time call) else e
+
 def Legacy.runAt (fl : Flags) (cfg : Cfg) (q : Nat) (tb : Tables) (v : Nat) (call : Nat) (full : Hist) : Exit × Tables :=
   Legacy.run fl cfg q tb (valueAt v call full) call (after call full)
 
 def New.runAt (fl : Flags) (cfg : Cfg) (q : Nat) (tb : Tables) (v : Nat) (call : Nat) (full : Hist) : Exit × Tables :=
   New.run fl cfg q tb (valueAt v call full) call (after call full)
+
+/-- legacy with entries: they are never looked at -/
+def Legacy.runAtE (_en : Entries) (fl : Flags) (cfg : Cfg) (q : Nat) (tb : Tables) (v : Nat) (call : Nat) (full : Hist) :
+    Exit × Tables :=
+  Legacy.runAt fl cfg q tb v call full
+
+/-- new subsystem with entries -/
+def New.runAtE (acted : Bool) (en : Entries) (fl : Flags) (cfg : Cfg) (q : Nat) (tb : Tables) (v : Nat) (call : Nat)
+    (full : Hist) : Exit × Tables :=
+  (New.exitWithEntries acted en call (New.runAt fl cfg q tb v call full).1, (New.runAt fl cfg q tb v call full).2)
 
 end PsModel.C15
